@@ -64,9 +64,15 @@ type BSpec struct {
 	IP     *BIP     `json:"ip,omitempty"`
 	PL     *BPL     `json:"pl,omitempty"`
 	FI     *BFI     `json:"fi,omitempty"`
+	// further stream_filters entries of the SAME types with their own configuration, listed after the first three
+	IP2    *BIP     `json:"ip2,omitempty"`
+	PL2    *BPL     `json:"pl2,omitempty"`
+	FI2    *BFI     `json:"fi2,omitempty"`
 	Routes []BRoute `json:"routes"`
 	Reqs   []BReq   `json:"reqs"`
 }
+
+func (bs *BSpec) multi() bool { return bs.IP2 != nil || bs.PL2 != nil || bs.FI2 != nil }
 
 type BObs struct {
 	Denied    bool   `json:"denied"`
@@ -137,9 +143,9 @@ func runBuiltin(id int, bs *BSpec) ([]BObs, error) {
 		return nil, err
 	}
 	var fcfg []v2.Filter
-	if bs.IP != nil {
+	ipCfg := func(ip *BIP) v2.Filter {
 		var ips []interface{}
-		for _, e := range bs.IP.Entries {
+		for _, e := range ip.Entries {
 			act := "allow"
 			if e.Deny {
 				act = "deny"
@@ -151,16 +157,28 @@ func runBuiltin(id int, bs *BSpec) ([]BObs, error) {
 			ips = append(ips, map[string]interface{}{"action": act, "addrs": addrs})
 		}
 		da := "allow"
-		if bs.IP.DefaultDeny {
+		if ip.DefaultDeny {
 			da = "deny"
 		}
-		fcfg = append(fcfg, v2.Filter{Type: v2.IPAccess, Config: map[string]interface{}{"default_action": da, "header": "x-real-ip", "ips": ips}})
+		return v2.Filter{Type: v2.IPAccess, Config: map[string]interface{}{"default_action": da, "header": "x-real-ip", "ips": ips}}
+	}
+	if bs.IP != nil {
+		fcfg = append(fcfg, ipCfg(bs.IP))
 	}
 	if bs.PL != nil {
 		fcfg = append(fcfg, v2.Filter{Type: v2.PayloadLimit, Config: plMap(bs.PL)})
 	}
 	if bs.FI != nil {
 		fcfg = append(fcfg, v2.Filter{Type: v2.FaultStream, Config: fiMap(bs.FI, clusters)})
+	}
+	if bs.IP2 != nil {
+		fcfg = append(fcfg, ipCfg(bs.IP2))
+	}
+	if bs.PL2 != nil {
+		fcfg = append(fcfg, v2.Filter{Type: v2.PayloadLimit, Config: plMap(bs.PL2)})
+	}
+	if bs.FI2 != nil {
+		fcfg = append(fcfg, v2.Filter{Type: v2.FaultStream, Config: fiMap(bs.FI2, clusters)})
 	}
 	if err := streamfilter.GetStreamFilterManager().AddOrUpdateStreamFilterConfig(listener, fcfg); err != nil {
 		return nil, err
@@ -239,42 +257,68 @@ func ipMember(addrs []string, addr string) (member, parsable bool) {
 	return false, true
 }
 
-// (denied, status, which filter)
+// (denied, status, which filter entry): the chain runs the BeforeRoute entries (ip_access) in configured order, then the
+// AfterRoute entries (payload_limit, fault_inject) in configured order; the first entry that denies answers
 func expectBuiltin(bs *BSpec, q BReq) (bool, int, string) {
 	r := bs.Routes[q.Route]
-	if bs.IP != nil {
+	for n, ip := range []*BIP{bs.IP, bs.IP2} {
+		if ip == nil {
+			continue
+		}
+		name := []string{"ip_access", "ip_access#2"}[n]
 		decided := false
-		for _, e := range bs.IP.Entries {
+		denied := false
+		for _, e := range ip.Entries {
 			m, ok := ipMember(e.Addrs, q.Addr)
 			if !ok || !m {
 				continue
 			}
 			if e.Deny {
-				return true, 403, "ip_access"
+				denied = true
 			}
 			decided = true
 			break
 		}
-		if !decided && bs.IP.DefaultDeny {
-			return true, 403, "ip_access"
+		if denied || (!decided && ip.DefaultDeny) {
+			return true, 403, name
 		}
 	}
-	if bs.PL != nil {
-		e := bs.PL
+	pl := func(e *BPL, name string) (bool, int, string) {
 		if r.PL != nil {
 			e = r.PL
 		}
 		if q.Body >= 0 && e.Max != 0 && bodyLen(q) > e.Max {
-			return true, e.Status, "payload_limit"
+			return true, e.Status, name
 		}
+		return false, 0, ""
 	}
-	if bs.FI != nil {
-		e := bs.FI
+	fi := func(e *BFI, name string) (bool, int, string) {
 		if r.FI != nil {
 			e = r.FI
 		}
 		if (e.Upstream < 0 || e.Upstream == r.Cluster) && (!e.Hdr || q.FaultHdr) && e.Percent >= 100 {
-			return true, e.Status, "fault_inject"
+			return true, e.Status, name
+		}
+		return false, 0, ""
+	}
+	if bs.PL != nil {
+		if d, st, w := pl(bs.PL, "payload_limit"); d {
+			return d, st, w
+		}
+	}
+	if bs.FI != nil {
+		if d, st, w := fi(bs.FI, "fault_inject"); d {
+			return d, st, w
+		}
+	}
+	if bs.PL2 != nil {
+		if d, st, w := pl(bs.PL2, "payload_limit#2"); d {
+			return d, st, w
+		}
+	}
+	if bs.FI2 != nil {
+		if d, st, w := fi(bs.FI2, "fault_inject#2"); d {
+			return d, st, w
 		}
 	}
 	return false, 0, ""
@@ -422,6 +466,25 @@ func genBuiltin(run *Run) []*BSpec {
 		}
 		out = append(out, bs)
 	}
+	// the same filter type listed twice (thrice) with different configurations: every entry decides with its own configuration
+	{
+		ipA := &BIP{Entries: []BIPEntry{{Deny: true, Addrs: []string{"1.1.1.1"}}}}
+		ipB := &BIP{Entries: []BIPEntry{{Deny: true, Addrs: []string{"2.2.2.2", "10.9.0.0/16"}}}}
+		two := []BRoute{{Cluster: 0}, {Cluster: 1}}
+		mk := func(bs *BSpec, reqs ...BReq) {
+			bs.Routes = two
+			bs.Reqs = reqs
+			out = append(out, bs)
+		}
+		mk(&BSpec{IP: ipA, IP2: ipB}, BReq{Route: 0, Body: 5, Addr: "2.2.2.2"}, BReq{Route: 1, Body: 5, Addr: "1.1.1.1"}, BReq{Route: 0, Body: -1, Addr: "3.3.3.3"}, BReq{Route: 1, Body: 5, Addr: "10.9.1.1"})
+		mk(&BSpec{IP: ipB, IP2: ipA}, BReq{Route: 0, Body: 5, Addr: "1.1.1.1"}, BReq{Route: 0, Body: 5, Addr: "2.2.2.2"}, BReq{Route: 1, Body: 5, Addr: "4.4.4.4"})
+		mk(&BSpec{PL: &BPL{Max: 100, Status: 413}, PL2: &BPL{Max: 10, Status: 429}}, BReq{Route: 0, Body: 50}, BReq{Route: 1, Body: 200}, BReq{Route: 0, Body: 5}, BReq{Route: 1, Body: 11})
+		mk(&BSpec{PL: &BPL{Max: 0, Status: 413}, PL2: &BPL{Max: 20, Status: 400}}, BReq{Route: 0, Body: 50}, BReq{Route: 1, Body: 20})
+		mk(&BSpec{FI: &BFI{Status: 503, Percent: 100, Upstream: 0}, FI2: &BFI{Status: 500, Percent: 100, Upstream: 1}}, BReq{Route: 0, Body: -1}, BReq{Route: 1, Body: -1}, BReq{Route: 1, Body: 5})
+		mk(&BSpec{FI: &BFI{Status: 503, Percent: 0, Upstream: -1}, FI2: &BFI{Status: 418, Percent: 100, Upstream: -1, Hdr: true}}, BReq{Route: 0, Body: -1, FaultHdr: true}, BReq{Route: 1, Body: -1})
+		mk(&BSpec{IP: ipA, PL: pl, FI: &BFI{Status: 503, Percent: 0, Upstream: -1}, IP2: ipB, PL2: &BPL{Max: 4, Status: 429}, FI2: &BFI{Status: 500, Percent: 100, Upstream: -1, Hdr: true}},
+			BReq{Route: 0, Body: 3, Addr: "2.2.2.2"}, BReq{Route: 0, Body: 6, Addr: "5.5.5.5"}, BReq{Route: 1, Body: 3, Addr: "5.5.5.5", FaultHdr: true}, BReq{Route: 1, Body: 3, Addr: "5.5.5.5"}, BReq{Route: 0, Body: 50, Addr: "1.1.1.1"})
+	}
 	for _, ip := range ips {
 		bs := &BSpec{IP: ip, PL: pl, Routes: []BRoute{{Cluster: 0}, {Cluster: 1, PL: &BPL{Max: 1000, Status: 413}}}}
 		for _, a := range addrs {
@@ -521,7 +584,9 @@ func builtinPart(run *Run) int {
 		builtinFinder(run, j)
 		kb, _ := json.Marshal(j.bs)
 		run.Count("builtin:"+string(kb), true, "builtin")
-		sh.Add(coqBCase(j.bs, j.obs), map[string]interface{}{"builtin": j.bs, "observed": j.obs})
+		if !j.bs.multi() { // (the model has one entry per type; listeners with several entries of a type are judged by the finder)
+			sh.Add(coqBCase(j.bs, j.obs), map[string]interface{}{"builtin": j.bs, "observed": j.obs})
+		}
 	}
 	sh.Close()
 	return 0
@@ -538,6 +603,8 @@ func builtinFinder(run *Run, j *builtinJob) {
 		deny, status, which := expectBuiltin(j.bs, q)
 		run.Sum.Distribution[fmt.Sprintf("builtin:expect-deny-%v:%s", deny, which)]++
 		switch {
+		case deny && strings.HasSuffix(which, "#2") && (!o.Denied || o.Status != status):
+			run.Fail("C14:builtin:configured-filter-entry-never-ran", fmt.Sprintf("request %d of the history must be denied (%d) by the SECOND configured entry of %s, which has its own configuration; observed denied=%v status=%d forwarded=%v: the entry's configuration never decided", k, status, strings.TrimSuffix(which, "#2"), o.Denied, o.Status, o.Forwarded), replay)
 		case deny && o.Forwarded && which == "payload_limit":
 			run.Fail("C14:builtin:oversized-request-forwarded", fmt.Sprintf("request %d of the history (route %d, body %d bytes) exceeds the effective payload limit (route-level override if the route has one, else the listener's), yet it was sent upstream (denied=%v)", k, q.Route, bodyLen(q), o.Denied), replay)
 		case deny && o.Forwarded:
